@@ -26,6 +26,37 @@ ASSUMPTIONS = ['names written to files are right-justified (format documentation
                'dmplex block order only for 3- and 4-sided columns (documented)']
 
 
+KEYWORD_PAIRS = [('CON', 'NEC'), ('LAY', 'ERS'), ('VER', 'TIC'), ('SUR', 'FAC'), ('WEL', 'LSA'), ('GRI', 'DXY'), ('CON', 'NE '), ('SUR', 'F A')]
+ODD_WELLS = ['WELLS', 'LAYER', 'SURFA', 'CONNE', 'VERTI', 'GRIDS', ' GRID', ' SURF', '12345', '  1.5']
+NUMBER_NAMES = ['123', ' 12', '1e3', '  0', '0.5', ' -1', '+ 2', 'nan', 'inf', '1d2', '9 9']
+
+
+def give_odd_names(g, spec, R):
+    """rename columns (3-character column names only) through the public rename_column"""
+    if g.colname_length != 3 or not g.connectionlist: return
+    taken = set(c.name for c in g.columnlist) | set(n.name for n in g.nodelist)
+    done = set()
+    if spec['kind'] == 'keyword':
+        for k in range(spec['n']):
+            a, b = KEYWORD_PAIRS[(spec['seed'] + k) % len(KEYWORD_PAIRS)]
+            con = g.connectionlist[(spec['seed'] * 7 + k * 13) % len(g.connectionlist)]
+            c0, c1 = con.column
+            if c0.name in done or c1.name in done or a in taken or b in taken: continue
+            if b.endswith(' '): continue
+            with R.lib('rename_column'): g.rename_column([c0.name, c1.name], [a, b])
+            taken |= {a, b}; done |= {a, b}
+            R.label('odd-names:connection-record-reads-like-a-keyword')
+    else:
+        cols = geo.ordered_columns(g)
+        for k in range(spec['n']):
+            nm = NUMBER_NAMES[(spec['seed'] + k) % len(NUMBER_NAMES)]
+            col = cols[(spec['seed'] * 7 + k * 13) % len(cols)]
+            if col.name in done or nm in taken: continue
+            with R.lib('rename_column'): g.rename_column(col.name, nm)
+            taken.add(nm); done.add(nm)
+            R.label('odd-names:column-name-looks-like-a-number')
+
+
 def case_strategy():
     @st.composite
     def s(draw):
@@ -40,6 +71,13 @@ def case_strategy():
             one = st.one_of(st.tuples(st.just('block_order'), st.sampled_from([None, 'layer_column', 'dmplex'])),
                             st.tuples(st.just('atmosphere_type'), st.sampled_from([0, 1, 2])))
             c['setters'] = [list(x) for x in draw(st.lists(one, min_size=1, max_size=3))]
+        if draw(st.integers(0, 5)) == 0:
+            # legal names a reader could mistake for something else: two connected columns whose names run together to a
+            # section keyword in the CONNECTIONS record, wells named like keywords, names that look like numbers
+            c['odd_names'] = {'kind': draw(st.sampled_from(['keyword', 'keyword', 'number'])), 'seed': draw(st.integers(0, 500)),
+                              'n': draw(st.integers(1, 6)), 'flip': draw(st.booleans())}
+            for i, w in enumerate(rc.get('wells') or []):
+                if i < len(ODD_WELLS): w['name'] = ODD_WELLS[(i + c['odd_names']['seed']) % len(ODD_WELLS)]
         return c
     return s()
 
@@ -311,6 +349,7 @@ def run_case(case, R):
             # an atmosphere layer whose centre is not its bottom (as in the shipped g4.dat / g5.dat: 1500.00 / 1500.01)
             R.label('top-layer-centre-differs-from-bottom')
             g.layerlist[0].centre = g.layerlist[0].bottom + float(case['top_centre'])
+        if case.get('odd_names'): give_odd_names(g, case['odd_names'], R)
         for name, v in case.get('setters') or []:
             R.label('setter:' + name)
             try:
